@@ -10,7 +10,8 @@ RULE = ("rpc/encoded reply values (structs, arrays of simple and of struct items
         "nested references inside referenced values, id spellings, multiRef placement (after the response; before it "
         "when marked root='0'), roots marked or unmarked, dangling hrefs; decode(out-lined) vs decode(inlined) through "
         "the real client, and MultiRef.process vs the model on the body tree; non-trivial = at least one out-lined "
-        "node; distinct = distinct (value, out-lining)")
+        "node; distinct = distinct (value, out-lining)"
+        ' ; plus: independent elements named like their referrer or otherwise, arrays of arrays, a dangling href followed by valid ones')
 ASSUMPTIONS = ["references are acyclic and an href sits on a value element, not on a multiRef element itself"]
 PARTIAL = [{"theorem": "decoded values (not trees) equal", "missing": "outlined_body_decodes proves, for every tree, every set "
             "of out-lined nodes and every nesting depth, that resolution returns the inline TREE (writer = "
